@@ -660,3 +660,23 @@ def plan_C04(ctx):
 
 
 CLAIMED["C04"] = plan_C04
+
+
+def plan_C06(ctx):
+    def build(corp):
+        rng = random.Random(ctx.seed * 613 + 6)
+        ps = gen.c06_programs(rng, ctx.q(22, 150))
+        for p in ps:
+            corp.add(p)
+        return {"consumer_programs": len(ps), "shapes": gen.C06_SHAPES,
+                "generators": ["finite with n+2 elements", "infinite", "two elements", "method generator", "generic generator mapIt[T,U]"],
+                "note": "every generator emits an effect before each yield, so the number of elements pulled is visible: after a consumer break/return the log must not contain a further generator effect"}
+
+    extra = {
+        "bounds": {"loop_bound_n": "[-1,2]", "outside": "consumer shapes not generated; nil iterators; Current() before the first advance as control input; consumer loops that re-declare their variable in the body (rejected by the Go type checker after lowering: C11 territory)"},
+        "explanation": "drivers call a consumer function (range with break/continue/return at guard-controlled points, := and = forms, nested ranges, pull+range on one iterator, iterators in struct fields / maps / slices / closures, generic helpers, method and generic generators); log = generator-side effects + consumer-side effects + final result; flat equality source-under-coroutine-semantics vs generated code. Incomplete Iter type replacement shows up as a generated package that does not type-check (front-end refutation, reported as unbuildable, not as a solver verdict).",
+    }
+    return corpus_check(ctx, "c06", build, 0, 0, extra, [REF_ASSUMPTION, PROGRAM_DIM], floors={"drivers_holds": ctx.q(150, 1000)}, nlo=-1, nhi=2)
+
+
+CLAIMED["C06"] = plan_C06
